@@ -95,3 +95,37 @@ Lemma good_bind_ret {A B} (c : N) (m : M A) (g : A -> B) :
 Proof.
   intros H. apply good_bind_le with (a := c) (b := 0%N); [exact H | intros; apply good_ret | lia].
 Qed.
+
+(** [goodP P b m]: safe unconditionally; at most [b] iterations when [P] (well-formedness of the input bytes). *)
+Definition goodP {A} (P : Prop) (b : N) (m : M A) : Prop := safe (fst m) /\ (P -> (snd m <= b)%N).
+
+Lemma goodP_of_good {A} P b (m : M A) : good b m -> goodP P b m.
+Proof. unfold good, goodP. intros [? ?]; split; auto. Qed.
+
+Lemma goodP_weaken {A} (P Q : Prop) b (m : M A) : (P -> Q) -> goodP Q b m -> goodP P b m.
+Proof. unfold goodP. intros HPQ [? ?]; split; auto. Qed.
+
+Lemma goodP_le {A} P (a b : N) (m : M A) : goodP P a m -> (a <= b)%N -> goodP P b m.
+Proof. unfold goodP; intros [? H] ?; split; [assumption | intros HP; specialize (H HP); lia]. Qed.
+
+Lemma goodP_bind_le {A B} P (a b c : N) (m : M A) (f : A -> M B) :
+  goodP P a m -> (forall x, fst m = Ok x -> goodP P b (f x)) -> (P -> (a + b <= c)%N) -> goodP P c (bind m f).
+Proof.
+  unfold goodP, bind. intros [Hs Ht] Hf Hle. destruct (fst m) as [x| e |] eqn:E; cbn [fst snd].
+  - destruct (Hf x eq_refl) as [Hs2 Ht2]. split; [assumption |].
+    intros HP. specialize (Ht HP). specialize (Ht2 HP). specialize (Hle HP). lia.
+  - split; [exact Hs |]. intros HP. specialize (Ht HP). specialize (Hle HP). lia.
+  - destruct Hs.
+Qed.
+
+Lemma goodP_tick_le {B} P (b c : N) (k : M B) : goodP P b k -> (P -> (1 + b <= c)%N) -> goodP P c (bind tick (fun _ => k)).
+Proof.
+  intros H Hle. apply goodP_bind_le with (a := 1%N) (b := b); [| intros; exact H | exact Hle].
+  unfold goodP, tick; cbn; split; [exact I | lia].
+Qed.
+
+Lemma goodP_bind_ret {A B} P (c : N) (m : M A) (g : A -> B) :
+  goodP P c m -> goodP P c (bind m (fun x => ret (g x))).
+Proof.
+  intros H. apply goodP_bind_le with (a := c) (b := 0%N); [exact H | intros; apply goodP_of_good, good_ret | lia].
+Qed.
